@@ -291,6 +291,18 @@ def judgeIdsFrom (start count distinct below : Nat) : String :=
   else if below ≠ 0 then s!"fail:ids:{below} sample(s) carry an id that one of the {start} ammo acquired earlier in the run already carried"
   else "ok"
 
+/-- "Errno-style": the net code of a failed exchange says what went wrong with the exchange (refused, reset, timed out, the
+gun's own fallback), so it is a function of the failure and of the client the gun was asked for — not of which helper
+dials. `dial.dns-cache` only selects that helper (a dialer that remembers the address of its first successful dial, or
+`net.Dialer` itself): the same requests failing in the same way must be coded alike with the option on (`cached`) and
+off (`plain`), request by request. -/
+def judgeDialerIndependent : List Nat → List Nat → String
+  | [], [] => "ok"
+  | c :: cs, p :: ps =>
+    if c ≠ p then s!"fail:net:a failed dial is coded {c} through the DNS-caching dialer but {p} with dial.dns-cache off"
+    else judgeDialerIndependent cs ps
+  | _, _ => "fail:count:the runs with dial.dns-cache on and off report different numbers of samples"
+
 /-- all ids distinct -/
 def idsUnique (ids : List Nat) : Bool :=
   let rec go : List Nat → Bool
